@@ -406,6 +406,17 @@ def reparse_checks(out_events, r, res=None):
                 e[2] = [a for a in e[2] if not (a[0][1] == 'xmlns' or a[0][1].startswith('xmlns:'))]
         for what, obs in check_events(j, r, 're-parse of %s output' % method, False):
             bad.append((what, [obs, text[:300]]))
+        if method == 'html':
+            # ... and by genshi's own HTML parser, which decodes attribute values once more
+            try:
+                from genshi.input import HTML, ParseError
+                g = [genshi_to_jev(e) for e in HTML(text)]
+            except Exception as ex:
+                if res is not None:
+                    res.count('reparse-genshi-raised:%s' % type(ex).__name__)
+                continue
+            for what, obs in check_events(g, r, 're-parse of html output by genshi.input.HTML', False):
+                bad.append((what, [obs, text[:300]]))
     return bad
 
 
@@ -701,6 +712,11 @@ def count_branches(real, res):
                     res.count('branch:uri-attribute-seen')
                     if ':' in v:
                         res.count('branch:uri-attribute-with-colon')
+                        head = v.split(':', 1)[0]
+                        if '\n' in head or '\r' in head or '&#10' in head or 'NewLine' in head:
+                            res.count('branch:uri-line-break-before-colon')
+                        if any(ch in head for ch in '+-.'):
+                            res.count('branch:uri-scheme-punctuation')
                 if an in r['safe_attrs'] and an == 'style':
                     res.count('branch:style-attribute-seen')
                     if '\\' in v:
@@ -709,6 +725,8 @@ def count_branches(real, res):
                         res.count('branch:style-with-comment')
         elif e[0] == 'E' and open_tags:
             open_tags.pop()
+        elif e[0] == 'PI' and ('>' in e[1] or '>' in e[2]):
+            res.count('branch:pi-with-gt')
     for an, n in kept.items():
         if an in r['uri_attrs']:
             res.count('branch:uri-attribute-kept', n)
@@ -797,7 +815,7 @@ def fixed_shard(arg):
 
 CSS_ALPHA = ['\\', '5', 'c', '/', '*', ';', ':', '(', ')', 'u', ' ', '\n', 'a']
 ENT_ALPHA = ['&', '#', 'x', 'X', '1', 'a', ';', 'm', 'p', '\u0663', 'g']
-URI_ALPHA = ['#', ':', 'a', 'A', '/', ' ', '\t', '\u212a', '1', '&', '"']   # no + - . (finding C06-scheme-punct)
+URI_ALPHA = ['#', ':', 'a', 'A', '-', ' ', '\n', '\u212a', '.', '&', '"']
 
 
 def exhaustive_shard(arg):
@@ -860,5 +878,36 @@ def search(ctx, res, broken):
     return found
 
 
+_PREFIX = re.compile(r'[A-Za-z_][A-Za-z0-9_.\-]*\Z')
+
+
+def in_domain(case):
+    """the hypotheses of the generators (ASSUMPTIONS): shrinking must not leave them, or a shrunk
+    input would 'fail' on the clean tree too"""
+    try:
+        if case.get('kind') not in ('html', 'raw', 'css', 'uri', 'ent'):
+            return False
+        if case['kind'] != 'raw':
+            return isinstance(case.get('text'), str)
+        depth = 0
+        for e in case['events']:
+            k = e[0]
+            if k == 'T' and e[2]:
+                return False            # Markup TEXT is trusted by construction
+            if k == 'SC':
+                depth += 1
+            elif k == 'EC':
+                depth = max(0, depth - 1)   # a stray END_CDATA is harmless
+            elif depth and k != 'T':
+                return False            # a CDATA section holds text only
+            if k == 'NS' and e[1] and not _PREFIX.match(e[1]):
+                return False            # namespace prefixes are XML names
+        return depth == 0
+    except Exception:
+        return False
+
+
 def replay(ctx, case):
+    if not in_domain(case):
+        return None
     return oracle_case(case)
